@@ -25,7 +25,7 @@ STUB = ["sockets / pipes / select.poll / time / locks (simulator)"]
 ASSUMPTIONS = ["in-memory kernel fidelity (EOF/reset/EPIPE semantics)", "a requester-side write failure outside serve_all need not mark the "
                "connection closed (the statement promises that only for sides that close, are told to close, or fail while serving); the "
                "stream must be closed and a later close() must run the hook once"]
-PROBES = ["c11:pipe-peer-vanished", "fault:recv-eof", "fault:recv-rst", "fault:send-epipe", "fault:send-rst", "fault:poll-eof", "c11:close-in-handler",
+PROBES = ["c11:local-close-while-blocked", "c11:pipe-peer-vanished", "fault:recv-eof", "fault:recv-rst", "fault:send-epipe", "fault:send-rst", "fault:poll-eof", "c11:close-in-handler",
           "c11:both-close"]
 
 WORKLOADS = ("sync", "async", "nested", "refs", "big", "twothreads", "pipes")
@@ -414,7 +414,7 @@ def run_one(choices, params):
             res["t"] = sim.now
         t2 = sim.spawn(requester, _name="A.requester")
         sim.sleep(w.pick((0.0, 0.25, 1.0)))
-        how = w.pick(("eof", "rst", "peer-close"))       # (a local close() from a third thread is the excluded second-thread close)
+        how = w.pick(("eof", "rst", "peer-close", "local-close"))
         t_end = sim.now
         info["closefired"] = True
         a_desc = [d for d in (so._d for so in k.fds.values()) if d.tag == "A"][0]
@@ -424,7 +424,9 @@ def run_one(choices, params):
             b_desc = [d for d in (so._d for so in k.fds.values()) if d.tag == "B"][0]
             k.kill_connection(b_desc, "eof", "director: peer process gone")
         else:
-            sim.spawn(lambda: ca.close(), _name="A.closer")
+            # a third local thread closes the connection while the requester is blocked waiting
+            closer = sim.spawn(lambda: ca.close(), _name="A.closer")
+            sim.count("c11:local-close-while-blocked")
         info["ops"].append(("end", how))
         if not sim.block(lambda: "out" in res, 60, "wait-requester"):
             raise core.Violation("hang", "a request blocked waiting in a second thread is still blocked 60 virtual s after the connection ended "
@@ -434,6 +436,12 @@ def run_one(choices, params):
         if res["t"] - t_end > 5.0:
             raise core.Violation("late-eof", "pending request failed %.1f virtual s after the connection ended" % (res["t"] - t_end))
         sim.block(lambda: t1.state == core.DONE, 30, "wait-A-serving")
+        if how == "local-close":
+            # judged once close() has returned in the thread that called it
+            if not sim.block(lambda: closer.state == core.DONE, 30, "wait-closer"):
+                raise core.Violation("hang", "close() called from a third thread has not returned after 30 virtual s; blocked in %r" % (closer.what,))
+            if closer.exc is not None:
+                raise core.Violation("close-raised", "close() from a third thread raised %s" % (closer.exc_tb[-300:],))
         if not ca.closed:
             raise core.Violation("not-closed", "A's serving thread met the end of the connection and A is not closed")
         if hooks["A_d"] != 1:
